@@ -54,11 +54,20 @@ type waitReadCloser struct {
 	io.ReadCloser
 	wait     chan struct{}
 	waitOnce sync.Once
+
+	// readErr is the first error returned by Read. The first error releases the
+	// upload request, after which net/http closes the underlying body, so the
+	// error is remembered to keep reporting it (io.EOF) on further reads.
+	readErr error
 }
 
 func (w *waitReadCloser) Read(p []byte) (int, error) {
+	if w.readErr != nil {
+		return 0, w.readErr
+	}
 	n, err := w.ReadCloser.Read(p)
 	if err != nil {
+		w.readErr = err
 		w.waitOnce.Do(func() { close(w.wait) })
 	}
 	return n, err
